@@ -319,7 +319,7 @@ func checkC16(r *Run) {
 			if oog == nil {
 				r.Viol("C16-R3", w.fn+"/out-of-gas-panic", P.Pos(f.Pos()), "no panic(ErrorOutOfGas)")
 			} else {
-				gs := P.Guards(oog, 0)
+				gs := P.Guards(oog, 2)
 				ok, _ := HasAtom(gs, `^\(param:g\.limit < (param:g\.consumed|.*addUint64Overflow\(param:g\.consumed, param:amount\)#0.*)\)$`)
 				// the comparison must see the updated total: the store to g.consumed precedes the panic site
 				Instrs(f, func(in ssa.Instruction) {
